@@ -1,7 +1,7 @@
 import json, os, subprocess
 
 SPEC = {
-    "lean_modules": ["SemaModel.C02.Props", "SemaModel.Compose.Props", "SemaModel.Compose.RankProps", "SemaModel.C02.Tie", "SemaModel.Compose.AcceptProps"],
+    "lean_modules": ["SemaModel.C02.Props", "SemaModel.Compose.Props", "SemaModel.Compose.RankProps", "SemaModel.C02.Tie", "SemaModel.Compose.AcceptProps", "SemaModel.Compose.AcceptRank"],
     "lean_dirs": ["SemaModel/C02", "SemaModel/Compose"],
     "harness": "c02",
     "harness_args": {"quick": ["-shards", 48, "-batches", 14, "-searches", 18, "-searchx", 6, "-rank", 200, "-accept", 60, "-acceptbatches", 12],
@@ -31,6 +31,8 @@ SPEC = {
         "Sema.Compose.Accept_inv_step", "Sema.Compose.Accept_inv_history", "Sema.Compose.Accept_refStep",
         "Sema.Compose.Compose_refines_independent_spec", "Sema.Compose.Compose_filter_exact_independent",
         "Sema.Compose.Compose_rejects_all_refuted",
+        # … and for the state WITH ranking indexes (SemaModel/Compose/AcceptRank.lean): rankVerdict / fullVerdict / rspecHist eliminated
+        "Sema.Compose.Accept_rank_iff", "Sema.Compose.Accept_rank_inv_step", "Sema.Compose.Compose_rank_refines_independent_spec",
         # tie theorems (SemaModel/C02/Tie.lean, notes/T1ext.md section 7): model functions = definitions generated from the Go source
         "Sema.C02.C02_tie_getOperation", "Sema.C02.C02_tie_getOperation_prevErr", "Sema.C02.C02_tie_getOperation_curErr",
         "Sema.C02.C02_tie_getOperation_ok", "Sema.C02.C02_tie_toChange", "Sema.C02.C02_tie_toArrChange",
